@@ -14,7 +14,7 @@ CHECKS = {
          "Full product of section order (6 permutations, root behind a gap) x gap x tree shape (root only, root->leaves, depth 3, mixed) x run length x offset pattern (contiguous, back-references, descending, overlapping) x entry count x metadata kind x 4 compressions (32k archives quick) through from_bytes, from_reader, from_async_reader, util::read_directories(_async) and Directory::find_entry_for_tile_id on every directory; the three upstream fixtures (1.4M tiles) against the spec reader.",
          "trusts the harness's encoder (spec/archive.rs); the fixtures tie encoder and reader to upstream output", "4/C03"),
  "C04": ("model_checking", "explicit-state breadth-first search to fix-point over edit histories of the real PMTiles object (states merged on a canonical key read through the verif hook), BTreeMap reference model checked in every state",
-         "All histories over add/remove/save+reopen(sync|async) on adjacent ids with colliding contents from 14 (quick) / 18 (thorough) initial states incl. three foreign archives and four range-filtered opens: the reachable state space is finite and explored completely (per content alphabet: 8.5k states / 94k transitions quick, ~790k states thorough; alphabets: unrelated contents, and contents related as prefix / suffix / concatenation / trailing zero; quick adds all histories of <= 5 operations over four ids and three related contents), twice in different exploration orders whose state sets must coincide; initial states include range-filtered opens; every transition is executed on the real object twice (with and without interleaved lookups) and lookups by id and by coordinates, listing and count are compared with the map in every state.",
+         "All histories over add/remove/save+reopen(sync|async) on adjacent ids with colliding contents from 14 (quick) / 18 (thorough) initial states incl. three foreign archives and four range-filtered opens: the reachable state space is finite and explored completely (per content alphabet: 8.5k states / 94k transitions quick, ~790k states thorough; alphabets: unrelated contents, and contents related as prefix / suffix / concatenation / trailing zero; quick adds all histories of <= 5 operations over four ids and three related contents; both tiers add the four adjacent ids 0..3 with two contents - alternating A,B,A,B - quick to depth 6, thorough to fix-point: 88k states / 1.2M transitions), twice in different exploration orders whose state sets must coincide; initial states include range-filtered opens; every transition is executed on the real object twice (with and without interleaved lookups) and lookups by id and by coordinates, listing and count are compared with the map in every state.",
          "state merging argument in DESIGN.md 4/C04; hook is read-only", "4/C04"),
  "C10": ("model_checking", "bounded-exhaustive archive enumeration in three tile provenances judged by the independent reader, plus an invariant on the hook snapshot in every state of the explicit-state history search",
          "Archive clauses on every small map x 4 codecs x {memory, reader-backed, mixed} x {sync,async} (58k archives quick) and on foreign archives storing a content twice: data length = sum of distinct contents, equal content <=> equal offset, no mergeable neighbours, entry count = number of maximal runs. Retention clause (exactly one stored copy per referenced content, exact reference sets, no orphan) as an invariant in every state of the C04 BFS.",
@@ -23,7 +23,7 @@ CHECKS = {
          "For 9 archives (with and without leaf directories, runs straddling leaf boundaries, a leaf pointer below its leaf's first id) every pair (Included|Excluded|Unbounded)(v) x (Included|Excluded|Unbounded)(v) over v in {0,1,u64::MAX-1,u64::MAX, leaf first ids +-1, run starts/ends +-1, max id +-1} - 14.5k ranges incl. empty and inverted - through the three partial openers and both directory utilities; ids, bytes and absent ids compared; failure or panic is a violation.",
          "full content taken from the independent spec reader; overflow checks on", "4/C11"),
  "C12": ("exploration", "bounded-exhaustive differential enumeration: both API twins on the same inputs (C01/C03/C05/C06/C09 alphabets and the C19 rejection inputs), values and hook snapshots compared",
-         "All small maps + metadata/settings alphabets (written by both writers, read by both readers, full and four range-filtered opens, byte identity for Compression::None), the foreign product, all directory lists of <= 2 entries incl. zero-length rejections, the write_directories crossing sweep, 45k header images incl. every enum/version code and truncation: equal values or errors on both sides.",
+         "All small maps + metadata/settings alphabets (written by both writers, read by both readers, full and four range-filtered opens, byte identity for Compression::None), the foreign product, all directory lists of <= 2 entries incl. zero-length rejections, the write_directories crossing sweep with initial leaf size default / 4096 / 1000 / 7, 45k header images incl. every enum/version code and truncation: equal values or errors on both sides.",
          "streams are ready-immediately in-memory cursors (fragmentation/Pending is C13)", "4/C12"),
  "C13": ("model_checking", "stateless deviation-bounded exploration (CHESS-style iterative bounding) of every stream call's answer (short transfer sizes, Pending) on the real sync and async code paths; all compositions for tiny objects; uniform schedules",
          "~250 scenarios (header/directory/archive read+write, full and range-filtered opens, lookups, multi-call sessions, backing-reader re-write, directory utilities, codec adapters, padded sections, 70 KB tiles / 9 KB metadata; 4 codecs; sync+async; leaf-spill writers): all executions with <= b deviations, b the largest value <= 3 (quick) / 4 (thorough) whose execution count fits a per-scenario budget (>= 1 even for the 7.7k-call spill writers); every transfer size at every call for directories of <= 17/21 bytes; uniform max-c-bytes / always-Pending schedules. 1.7 M executions and 2*10^8 stream calls in the quick tier. Result, per-call results of sessions, stream image and final position must equal the unfragmented run. Vectored writes are one call offering the concatenation. Replay divergence is a machinery error (exit 2).",
